@@ -22,6 +22,18 @@ CHECKS = [
  chk("C11", "History checker: seeded sequences of circuit-building, transformation and read-only operations run on real Circuit objects; after every step size/width/counts/arity counts/flags/depth are recomputed from list(circuit) and compared, copy() must succeed and be equal, rejected add_gate must leave no trace, read-only operations are bracketed by full snapshots; plus a Gate-constructor fuzz of malformed index specifications.",
      "Trusted: recomputation from the public iterator; depth oracle = ASAP schedule; shadow flag for 'never given a fixed size'.",
      "runtime history checker with shadow model + invariants at the API boundary", "DESIGN.md section 4 C11"),
+ chk("C03", "Every observed fermion_to_qubit_mapping / combinatorial call is compared with an explicit Fock-space matrix algebra: canonical anticommutation relations exhaustively over all ordered pairs of ladder operators (JW/BK/JKMN, both orderings, odd sizes), adjoint / product / linearity / constants on seeded random operators incl. operators not touching the highest index, full spectra of random Hermitian Hamiltonians, scBK spectra and algebra in every parity sector, HCB as the projected matrix on the paired space, combinatorial spectra for every (n_alpha, n_beta).",
+     "Trusted: vlib.fock ladder matrices built by bit manipulation, dense Pauli algebra, numpy eigvalsh. Registers <= 6 (8) spin-orbitals.",
+     "runtime reference-model monitor (independent Fock-space algebra) with exhaustive small-space enumeration", "DESIGN.md section 4 C03"),
+ chk("C05", "Exhaustive agreement monitor between state encoder and operator encoder: all 2^n occupation vectors (n <= 8 quick, <= 12 thorough) x JW/BK/scBK/JKMN x both orderings, and all admissible (n_spinorbitals, n_electrons, spin) incl. negative and None spin; the produced circuit must be X gates only and every encoded number operator must evaluate to exactly the requested occupation on the prepared basis state.",
+     "Trusted: own Z-string evaluator; the operator encoder itself is C03's subject.",
+     "runtime exhaustive enumeration with an independent basis-state evaluator", "DESIGN.md section 4 C05"),
+ chk("C10", "Reference interpreter over the numpy simulator follows every outcome branch of seeded circuits with MEASURE / CMEASURE (dictionary, function, class, nested, repeat-until-success) and is compared with every observed conditioned, density-matrix, sampled and single-shot simulate call: branch states, distributions, recorded success probabilities, applied gates, sum of probabilities, mixture = diag(rho), marginals of all_frequencies, chi-square on sampled joint outcomes.",
+     "Trusted: vlib.refsim projector semantics; controls returned gates are executed immediately after their measurement; cirq only.",
+     "runtime reference interpreter + conservation checks over recorded histograms + statistical monitor", "DESIGN.md section 4 C10"),
+ chk("C16", "Real binary operators of FermionOperator / QubitOperator / QubitHamiltonian (Tangelo and openfermion instances mixed, scalars on either side) are invoked on shared operand pools in aliasing chains of 1-6 operations; operands are snapshotted around every call and results compared with dense Fock / Pauli matrix algebra carried along as a shadow; MultiformOperator products, collapse and do_commute compared with the symbolic product and an independent term-wise symplectic test.",
+     "Trusted: vlib.fock (3 modes) and dense Pauli matrices (3-5 qubits). do_commute oracle is sound both ways (True => zero commutator; term-wise commuting => True).",
+     "runtime reference-model monitor + operand snapshot invariants + aliasing-history checker with shadow model", "DESIGN.md section 4 C16"),
 ]
 
 ALL = [f"C{i:02d}" for i in range(1, 21)]
